@@ -18,6 +18,11 @@ def run(tier):
         obs.append(Obligation('seq3', 'harness/c03.py', 'h_seq3', partitions=pats, timeout=900,
                               what='same for sequences of three mutations (kind patterns with adds, renames, changes, deletes)',
                               bounds='120 kind triples over the same pools', functions=F))
+    pats4 = [[a, 4, 0, d] for a in (1, 2, 3) for d in (1, 2, 3)] + [[4, 4, 3, 1], [1, 4, 4, 3], [0, 4, 0, 3]]
+    if tier == 'thorough':
+        obs.append(Obligation('seq4', 'harness/c03.py', 'h_seq4', partitions=pats4, timeout=1200,
+                              what='sequences of four mutations on one model for kind patterns with name reuse (change or delete, rename away, add again, change/delete)',
+                              bounds='12 kind patterns x 2 models x 2 fields x new names g,h,i', functions=F))
     return run_check('C03', obs, tier,
                      assumptions=['signature level only: equality of database schema and rows between the optimised and the one-at-a-time run needs the untraceable SQL generation and is outside (the E2 engine runs every program batched)',
                                   'sequences with two mutations rendering to the same hint text are excluded (CrossHair models set() by equality, BaseMutation hashes by identity)',
